@@ -49,10 +49,30 @@ package phantoms
 //@ func getSubnetsHkdf(sc genericSubnetConfig, seed []byte, weighted bool) ([]*phantomNet, error)
 //@   requires sc != nil
 //@   ensures @C14: true
+// C14 purity: selection does not write into the configuration it reads (the subnet groups of the generation)
+//@   assigns nothing
 //@   checks safety
 //@ loop 1:
-//@   invariant totWeight >= 0 && 0 <= iter
+//@   invariant totWeight >= 0 && 0 <= iter && fresh(choices)
 //@ loop 2:
 //@   invariant 0 <= iter
 //@ loop 3:
-//@   invariant 0 <= iter
+//@   invariant 0 <= iter && fresh(out)
+
+// C14: the family filters keep exactly networks of the requested family (a 4-byte network, or a 16-byte network that
+// is IPv4-mapped, is an IPv4 network), so that "a well-formed address of the requested family" follows from containment.
+//@ func V4Only(obj []*phantomNet) ([]*phantomNet, error)
+//@   requires forall i int :: 0 <= i && i < len(obj) ==> obj[i] != nil && obj[i].IPNet != nil
+//@   ensures @C14: result1 == nil && (forall i int :: 0 <= i && i < len(result0) ==> result0[i] != nil && result0[i].IPNet != nil && (len(result0[i].IPNet.IP) == 4 || (len(result0[i].IPNet.IP) == 16 && isV4Mapped(result0[i].IPNet.IP))))
+//@   assigns nothing
+//@ loop 1:
+//@   invariant 0 <= iter && fresh(out)
+//@   invariant forall i int :: 0 <= i && i < len(out) ==> out[i] != nil && out[i].IPNet != nil && (len(out[i].IPNet.IP) == 4 || (len(out[i].IPNet.IP) == 16 && isV4Mapped(out[i].IPNet.IP)))
+
+//@ func V6Only(obj []*phantomNet) ([]*phantomNet, error)
+//@   requires forall i int :: 0 <= i && i < len(obj) ==> obj[i] != nil && obj[i].IPNet != nil
+//@   ensures @C14: result1 == nil && (forall i int :: 0 <= i && i < len(result0) ==> result0[i] != nil && result0[i].IPNet != nil && len(result0[i].IPNet.IP) != 4 && !isV4Mapped(result0[i].IPNet.IP))
+//@   assigns nothing
+//@ loop 1:
+//@   invariant 0 <= iter && fresh(out)
+//@   invariant forall i int :: 0 <= i && i < len(out) ==> out[i] != nil && out[i].IPNet != nil && len(out[i].IPNet.IP) != 4 && !isV4Mapped(out[i].IPNet.IP)
